@@ -122,7 +122,7 @@ def export(tier, seed, verdict):
     def rule():
         # real-range zones with a DST rule: the 403-year table + 400-year shift design (ZoneImplRule) refines Zone
         zs = [(n, p) for n, p in tzgen.shipped_zones(V.REPO) if n in ("America/New_York", "Australia/Lord_Howe", "Europe/Dublin", "America/Nuuk")]
-        zs += [(n, p) for n, p in tzgen.write_corpus(os.path.join(cdir, "rulezones"), 1, 0) if "special" in n]
+        zs += [(n, p) for n, p in tzgen.write_corpus(os.path.join(cdir, "rulezones"), 1, 0) if "special" in n or "old-4" in n or "old-5" in n or "old-3" in n]
         zf = os.path.join(cdir, "rulezones.ndjson")
         with open(zf, "w") as f:
             for n, p in zs:
